@@ -187,25 +187,31 @@ Theorem C03_hcl_normal_form :
 Proof. exact hcl_roundtrip_norm. Qed.
 Print Assumptions C03_hcl_normal_form.
 
-(** 4b. the differ half: for every well-formed schema whose tables are [diffable] the SQLite differ
+(** 4b. the differ half: for every well-formed schema whose tables are [diffable_auto] the SQLite differ
     (Diff/DiffSqlite.v, C02's model of sqlx.Diff + sqlite/diff.go) finds no change between the round
-    trip and the original, in both directions.  [diffable]: unique column / index / fk names, typed
-    columns, defaults in [default_ok] (4c shows each excluded form is a genuine change), index parts
-    numbered increasingly, primary key on plain ascending columns, referential actions without '_',
-    and NO index with a generated name (sqlite_autoindex_ prefix).
-    Partial because of that last clause: a table with a UNIQUE constraint is inspected with such an
-    index and the differ then goes through Normalize / FindGeneratedIndex (C02_sqlite_copy_empty proves
-    that path for a schema against its copy; the round trip is covered by the tie and the oracle). *)
-Theorem C03_hcl_partial :
-  forall name xs, schema_wf xs -> Forall diffable xs ->
+    trip and the original, in both directions.  [diffable_auto]: unique column / index / fk names, typed
+    columns, defaults in [default_ok] (4c: each excluded form is a genuine change), index parts numbered
+    increasingly, primary key on plain ascending columns, referential actions without '_', named CHECKs
+    unique; indexes with generated names (the sqlite_autoindex_ ones of UNIQUE constraints, which Normalize
+    renames on one side and FindGeneratedIndex finds again) are allowed as long as the renamed names do
+    not collide (C02's finding C02-sqlite-autoindex-name-collision is the failure without it).
+    This is the characterisation that holds ("_except"); what stays assumed is the HCL text layer. *)
+From Atlas Require Import Hcl.SpecDiffAutoProofs.
+Theorem C03_hcl_except :
+  forall name xs, schema_wf xs -> Forall diffable_auto xs ->
   exists ys, hcl_roundtrip xs = ROk ys /\
     SchemaDiff sqlite_driver no_skip (schema_of name ys) (schema_of name xs) = Some [] /\
     SchemaDiff sqlite_driver no_skip (schema_of name xs) (schema_of name ys) = Some [].
-Proof. exact hcl_roundtrip_diff_empty. Qed.
-Print Assumptions C03_hcl_partial.
+Proof. exact hcl_roundtrip_diff_empty_auto. Qed.
+Print Assumptions C03_hcl_except.
 
-Example C03_hcl_nonvacuous : schema_wf w_xs /\ Forall diffable w_xs /\ List.length w_xs = 2%nat.
-Proof. exact (conj w_xs_wf (conj w_xs_diffable eq_refl)). Qed.
+Example C03_hcl_nonvacuous :
+  (schema_wf w_xs /\ Forall diffable w_xs /\ List.length w_xs = 2%nat) /\
+  (schema_wf [w_u] /\ Forall diffable_auto [w_u]).
+Proof.
+  split; [exact (conj w_xs_wf (conj w_xs_diffable eq_refl))|].
+  split; [exact w_u_wf|constructor; [exact w_u_diffable|constructor]].
+Qed.
 
 (** 4c. C03_hcl at full strength is FALSE: columns the conversion accepts ([col_wf]) whose round trip the
     differ reports as changed -- boolean DEFAULT TRUE, DEFAULT '''a''' (a quoted quote), DEFAULT +5,
